@@ -45,6 +45,13 @@ func (s *Store) Get(l ipld.Link) ([]byte, bool) {
 
 func (s *Store) Has(l ipld.Link) bool { _, ok := s.Get(l); return ok }
 
+// Clear drops every block (a caller discarding the partial data of a cancelled request)
+func (s *Store) Clear() {
+	s.mu.Lock()
+	defer s.mu.Unlock()
+	s.blocks = map[string][]byte{}
+}
+
 func (s *Store) Keys() []string {
 	s.mu.Lock()
 	defer s.mu.Unlock()
